@@ -24,3 +24,53 @@ Print Assumptions C20_sets_operands_unchanged.
 (* non-vacuity: the empty store is well formed *)
 Example C20_empty_store_wf : wf_store [].
 Proof. constructor. Qed.
+
+(* ---------------- priority queue ---------------- *)
+From LC.Cont Require Import Heap HeapInv.
+
+(* inv h = heap order (no child below its parent under the comparator) /\
+   ids distinct /\ every element's last setIndex value is its position. *)
+
+(* Every reachable state satisfies the invariant: every history from the empty
+   queue in which pushes use fresh ids (all other operations arbitrary). *)
+Theorem C20_pq_invariant_every_history : forall ops, ops_ok empty ops -> inv (fst (run empty ops)).
+Proof. exact run_empty_inv. Qed.
+Print Assumptions C20_pq_invariant_every_history.
+
+Theorem C20_pq_invariant_every_prefix : forall ops1 ops2 h,
+  inv h -> ops_ok h (ops1 ++ ops2) -> inv (fst (run h ops1)).
+Proof. exact run_inv_everywhere. Qed.
+Print Assumptions C20_pq_invariant_every_prefix.
+
+(* Pop returns a minimal element, conserves the multiset, keeps the invariant. *)
+Theorem C20_pq_pop_minimal : forall h, inv h -> arr h <> nil ->
+  exists x h', pop h = Some (x, h') /\ inv h' /\ Permutation.Permutation (arr h) (x :: arr h')
+               /\ (forall y, In y (arr h) -> less y x = false).
+Proof. exact pop_ok. Qed.
+Print Assumptions C20_pq_pop_minimal.
+
+Theorem C20_pq_push : forall h id p, inv h -> ~ In id (map ident (arr h)) ->
+  exists h', push h (id, p) = Some h' /\ inv h' /\ Permutation.Permutation (arr h') ((id, p) :: arr h).
+Proof. exact push_ok. Qed.
+Print Assumptions C20_pq_push.
+
+(* Remove(i) removes exactly the element at i. *)
+Theorem C20_pq_remove : forall h i x, inv h -> nth_error (arr h) i = Some x ->
+  exists h', remove h i = Some (x, h') /\ inv h' /\ Permutation.Permutation (arr h) (x :: arr h').
+Proof. exact remove_ok. Qed.
+Print Assumptions C20_pq_remove.
+
+(* Fix(i) after an ARBITRARY priority change at i re-establishes everything. *)
+Theorem C20_pq_fix : forall h i p a, inv h -> set_prio (arr h) i p = Some a ->
+  exists h', fix_ {| arr := a; idx := idx h |} i = Some h' /\ inv h' /\ Permutation.Permutation (arr h') a.
+Proof. exact fix_ok. Qed.
+Print Assumptions C20_pq_fix.
+
+(* no out-of-range access (Go panic) and no fuel exhaustion on defined ops *)
+Theorem C20_pq_total : forall ops h, inv h -> ops_defined h ops -> ~ In RErr (snd (run h ops)).
+Proof. exact run_no_err. Qed.
+Print Assumptions C20_pq_total.
+
+(* non-vacuity: a concrete 5-element heap with ties satisfies inv *)
+Example C20_pq_inv_nonvacuous : inv (fst (run empty example_ops)).
+Proof. exact example_inv. Qed.
